@@ -661,6 +661,19 @@ func GenFeed(r *core.Rand, o Opts) *Feed {
 			delete(f.Assoc, t)
 		}
 	}
+	// FeedEntity.id says nothing about trips and vehicles: two entities that (against the letter of GTFS-realtime) carry the
+	// same id, or an empty one, still describe what they describe
+	if n := len(f.Msg.Entity); n >= 2 && r.Chance(1, 8) {
+		a, b := r.Intn(n), r.Intn(n)
+		if a != b && f.Msg.Entity[a].Alert == nil && f.Msg.Entity[b].Alert == nil {
+			if r.Bool() {
+				f.Msg.Entity[b].Id = S(f.Msg.Entity[a].GetId())
+			} else {
+				f.Msg.Entity[a].Id, f.Msg.Entity[b].Id = S(""), S("")
+			}
+			f.feat("entities-sharing-one-entity-id")
+		}
+	}
 	return f
 }
 
